@@ -2,17 +2,33 @@
 
 A zoo of data classes (harness classes built on every Dom base class, mutable
 and frozen, with nested data-object fields typed by the class, plus the tree's
-own Bag / IceBag / multidoing memo Doms) x generated field values from the
+own Bag / IceBag / Can / multidoing memo Doms) x generated field values from the
 domain common to JSON, CBOR and MessagePack.  For each codec X:
 
     cls._fromX(obj._asX()) == obj   and   type(result) is cls
 
-and, for nested data-object fields, the nested value is again an instance of
-its class (not a dict).  _fromdict(_asdict()) is checked the same way.
+and every nested data object is again an instance of its class (not a dict).
+_fromdict(_asdict()) is checked the same way.
+
+Besides fields annotated with the nested class itself the zoo holds nested data
+objects the other ways a caller writes them: in classes declared under
+`from __future__ import annotations` (vlib/props/c28_future_doms.py), in
+`Dom | None` / `Optional[Dom]` / `list[Dom]` / `dict[str, Dom]` fields, inside the
+generic `Any` / `list` / `dict` fields (the tree's own Bag, IceBag, Can), data
+classes with a `field(init=False)` and nested data classes with a matched
+`_dictify` / `_datify` pair.  A failure of one of these shapes gets that shape's own
+signature only when the result is exactly the sent object with the nested objects of
+that shape flattened to their plain dicts and that flattened object itself
+round-trips unchanged; any other failure keeps the codec's raw signature.
 """
 import dataclasses
+import functools
+import itertools
+import sys
+import types
+import typing
 from dataclasses import dataclass, field
-from typing import Any
+from typing import Any, Optional
 
 from hypothesis import strategies as st
 
@@ -20,6 +36,7 @@ from hio.help import doming
 from hio.help.doming import (IceRawDom, IceRegDom, IceTymeDom, RawDom, RegDom, TymeDom, namify, registerify)
 from hio.base.hier import bagging
 from vlib.core import Result, assert_in_tree
+from vlib.props import c28_future_doms as fut
 
 assert_in_tree(doming, bagging)
 
@@ -29,17 +46,26 @@ try:
 except Exception:      # noqa: BLE001 - optional part of the zoo
     multidoing = None
 
+try:
+    from hio.base.hier import canning
+    assert_in_tree(canning)
+except Exception:      # noqa: BLE001 - optional part of the zoo
+    canning = None
+
 PID = "C28"
-RULE = ("cases: (class from a zoo of 23 data classes, two of them field-less markers nested in a holder (a nested marker serialises to the empty dict), three of them subclasses that add nested data-object fields to a concrete parent which is deserialised first over RawDom/RegDom/TymeDom/IceRawDom/IceRegDom/IceTymeDom and the "
-        "tree's Bag, IceBag, AckDom/AddrDom/MemoDom/BokDom, field values); values (also in fields whose declared default is not None, and None in typed fields) drawn from None, bools, ints in "
+RULE = ("cases: (class from a zoo of 38 data classes, two of them field-less markers nested in a holder (a nested marker serialises to the empty dict), three of them subclasses that add nested data-object fields to a concrete parent which is deserialised first over RawDom/RegDom/TymeDom/IceRawDom/IceRegDom/IceTymeDom/CanDom and the "
+        "tree's Bag, IceBag, Can, AckDom/AddrDom/MemoDom/BokDom, field values); values (also in fields whose declared default is not None, and None in typed fields) drawn from None, bools, ints in "
         "[-2**63, 2**64-1], finite floats, surrogate-free unicode strings, lists and string-keyed dicts of those, nested "
-        "data objects in fields typed by their class; non-trivial = the object holds a nested data object or a nested "
+        "data objects in fields typed by their class (real annotations; string annotations of four classes declared under from __future__ import annotations, one of them a CanDom subclass, one of them subclassed in a module where the "
+        "annotated names mean other classes), in Dom|None, Optional[Dom], list[Dom], dict[str, Dom] fields and anywhere inside generic Any/list/dict fields, data classes with field(init=False) "
+        "(assigned later or derived in __post_init__), top level and nested, a data class with a matched _dictify/_datify pair, top level and nested; non-trivial = the object holds a nested data object or a nested "
         "container (list/dict inside list/dict); distinct = canonical hash of (class, values)")
 ASSUMPTIONS = [
-    "nested data objects sit in fields annotated with the nested class itself (real annotations, as in the tree's AckDom); "
-    "union / string annotations and data objects inside generic Any/list/dict fields are not part of the documented conversion and are not generated",
+    "a nested data object is an instance of exactly the class its field names (no subclass instance in a base-typed field); in generic Any/list/dict fields and in Dom|None, "
+    "list[Dom], dict[str, Dom] fields it is a plain instance of a zoo class without hooks and without init=False fields",
     "values outside the common domain of the three codecs (tuples, sets, bytes, NaN/inf, non-string keys, lone surrogates, ints beyond 64 bits) are not generated",
     "equality is the data classes' own == (field-wise), plus class identity of the result and of nested data objects",
+    "a _dictify/_datify pair is exactly invertible (it renames the keys); data classes are declared at module level (a string annotation naming a function-local class cannot be resolved by anyone)",
 ]
 
 
@@ -193,7 +219,129 @@ class ZHolder(RegDom):
         return hash((self.__class__.__name__,))
 
 
-PARENT = {"ZSubFlat": "ZFlat", "ZSubInner": "ZInner", "ZSubIceReg": "ZIceReg"}
+# ---- shapes of nested data objects other than "field annotated with the class itself" (review hunts/C28)
+
+# unrelated namesakes of c28_future_doms.ZFInner / ZFIceInner: ZFSub below inherits fields whose string annotations
+# 'ZFInner' / 'ZFIceInner' were written in c28_future_doms and mean the classes of THAT module
+@dataclass
+class ZFInner(RawDom):
+    q: int = 0
+
+
+@dataclass(frozen=True)
+class ZFIceInner(IceRawDom):
+    q: int = 0
+
+
+@registerify
+@dataclass
+class ZFSub(fut.ZFReg):
+    more: ZInner = field(default_factory=ZInner)
+    tail: Any = None
+
+    def __hash__(self):
+        return hash((self.__class__.__name__,))
+
+
+@registerify
+@dataclass
+class ZOpt(RegDom):
+    a: ZInner | None = None
+    b: Optional[ZIceInner] = None
+    n: int = 0
+
+    def __hash__(self):
+        return hash((self.__class__.__name__,))
+
+
+@registerify
+@dataclass
+class ZPoly(RegDom):
+    pts: list[ZInner] = field(default_factory=list)
+    named: dict[str, ZIceInner] = field(default_factory=dict)
+    n: int = 0
+
+    def __hash__(self):
+        return hash((self.__class__.__name__,))
+
+
+# data classes with a field that is not a parameter of __init__
+@registerify
+@dataclass
+class ZNoInit(RegDom):
+    x: int = 1
+    y: int = field(init=False, default=5)           # assigned by the caller after construction
+    w: Any = field(init=False, default=None)
+
+    def __hash__(self):
+        return hash((self.__class__.__name__,))
+
+
+@registerify
+@dataclass(frozen=True)
+class ZIceNoInit(IceRegDom):
+    s: str = ""
+    size: int = field(init=False, default=0)        # derived in __post_init__
+
+    def __post_init__(self):
+        object.__setattr__(self, "size", len(self.s or ""))
+
+
+@registerify
+@dataclass
+class ZNoInitHolder(RegDom):
+    ni: ZNoInit = field(default_factory=ZNoInit)
+    ice: ZIceNoInit = field(default_factory=ZIceNoInit)
+    n: int = 0
+
+    def __hash__(self):
+        return hash((self.__class__.__name__,))
+
+
+# the same fields, all of them parameters of __init__: the control of a failing ZNoInit / ZIceNoInit case
+@dataclass
+class ZNoInitTwin(RawDom):
+    x: int = 1
+    y: int = 5
+    w: Any = None
+
+
+@dataclass(frozen=True)
+class ZIceNoInitTwin(IceRawDom):
+    s: str = ""
+    size: int = 0
+
+
+# a data class with a matched pair of the conversion hooks of dictify / datify (they rename the keys)
+@registerify
+@dataclass
+class ZHooked(RegDom):
+    radius: float = 0.0
+    label: str = ""
+
+    def _dictify(self):
+        return dict(r=self.radius, l=self.label)
+
+    @staticmethod
+    def _datify(d):
+        return ZHooked(radius=d["r"], label=d["l"])
+
+    def __hash__(self):
+        return hash((self.__class__.__name__,))
+
+
+@registerify
+@dataclass
+class ZHookHolder(RegDom):
+    c: ZHooked = field(default_factory=ZHooked)
+    n: int = 0
+
+    def __hash__(self):
+        return hash((self.__class__.__name__,))
+
+
+PARENT = {"ZSubFlat": "ZFlat", "ZSubInner": "ZInner", "ZSubIceReg": "ZIceReg", "ZFSub": "ZFReg"}
+TWIN = {"ZNoInit": ZNoInitTwin, "ZIceNoInit": ZIceNoInitTwin}
 
 ZOO = {c.__name__: c for c in (ZInner, ZIceInner, ZMid, ZOuter, ZIceReg, ZIceTyme, ZFlat, ZDefaults, ZIceDefaults,
                                ZSubFlat, ZSubInner, ZSubIceReg, ZMark, ZIceMark, ZHolder, bagging.Bag, bagging.IceBag)}
@@ -201,15 +349,70 @@ if multidoing is not None:
     # CrewDom is left out: its default boss field is a namedtuple, outside the common domain of the codecs
     for _n in ("AddrDom", "AckDom", "MemoDom", "BokDom", "EndDom", "HandDom"):
         ZOO[_n] = getattr(multidoing, _n)
+CLASSIC = sorted(ZOO)       # the classes of the 'zoo' search: every nested data object sits in a field annotated with its class
+for _c in (fut.ZFInner, fut.ZFIceInner, fut.ZFReg, fut.ZFIceReg, fut.ZFTyme, fut.ZFCan, ZFSub, ZOpt, ZPoly,
+           ZNoInit, ZIceNoInit, ZNoInitHolder, ZHooked, ZHookHolder):
+    ZOO[_c.__name__] = _c
+if canning is not None:
+    ZOO["Can"] = canning.Can
+
+MARK = "$c28dom$"       # {MARK: spec} inside a generic value stands for a nested data object (keys of generated dicts are at most 5 characters)
+
+# why a nested data object may not come back as an instance of its class; each is one root cause with its own signature
+SHAPES = {
+    "string": "C28/nested-dom-lost(field annotated with a string, from __future__ import annotations)",
+    "optional": "C28/nested-dom-lost(field annotated Dom | None or Optional[Dom])",
+    "container": "C28/nested-dom-lost(field annotated list[Dom] or dict[str, Dom])",
+    "untyped": "C28/nested-dom-lost(generic Any / list / dict field)",
+    "hooked": "C28/nested-dom-lost(nested class has a _dictify/_datify pair)",
+    "noinit": "C28/field-init-false(class has a field(init=False))",
+}
+SHAPE_ORDER = ["string", "optional", "container", "untyped", "hooked", "noinit"]
+CLASSCATS = {"ZHooked": "hooked", "ZNoInit": "noinit", "ZIceNoInit": "noinit"}     # when nested in a field annotated with them
+
+
+def _resolved(cls, f):
+    """(type hint of field f of cls, was it a string): a string annotation is evaluated in the module of the class that wrote it"""
+    t = f.type
+    if not isinstance(t, str):
+        return t, False
+    for k in cls.__mro__:
+        if f.name in k.__dict__.get("__annotations__", {}):
+            return eval(t, dict(vars(sys.modules[k.__module__]))), True      # noqa: S307 - the harness's and the tree's own annotations
+    raise AssertionError("no annotation for %s.%s" % (cls.__name__, f.name))
+
+
+def _domcls(t):
+    return isinstance(t, type) and dataclasses.is_dataclass(t)
+
+
+STRHINT = set()     # (zoo name, field) of nested data-object fields whose annotation is a string
+NOINIT = {}         # zoo name -> names of its init=False fields
 
 
 def field_plan(cls):
-    """[(name, kind)] with kind 'dom:<ZooName>' | 'int' | 'str' | 'float' | 'bool' | 'list' | 'dict' | 'optfloat' | 'any'"""
+    """[(name, kind)] with kind 'dom:<ZooName>' | 'optdom:<ZooName>' | 'listdom:<ZooName>' | 'dictdom:<ZooName>' |
+    'int' | 'str' | 'float' | 'bool' | 'list' | 'dict' | 'optfloat' | 'any'"""
     out = []
+    frozen = cls.__dataclass_params__.frozen
     for f in dataclasses.fields(cls):
-        t = f.type
-        if isinstance(t, type) and dataclasses.is_dataclass(t):
+        t, was_str = _resolved(cls, f)
+        if not f.init:
+            NOINIT.setdefault(cls.__name__, set()).add(f.name)
+            if frozen:
+                continue        # derived by the class itself
+        origin = typing.get_origin(t)
+        args = typing.get_args(t)
+        if _domcls(t):
             out.append((f.name, "dom:" + t.__name__))
+            if was_str:
+                STRHINT.add((cls.__name__, f.name))
+        elif origin in (typing.Union, types.UnionType) and len(args) == 2 and type(None) in args and any(_domcls(a) for a in args):
+            out.append((f.name, "optdom:" + [a for a in args if _domcls(a)][0].__name__))
+        elif origin is list and len(args) == 1 and _domcls(args[0]):
+            out.append((f.name, "listdom:" + args[0].__name__))
+        elif origin is dict and len(args) == 2 and args[0] is str and _domcls(args[1]):
+            out.append((f.name, "dictdom:" + args[1].__name__))
         elif t is int:
             out.append((f.name, "int"))
         elif t is str:
@@ -238,47 +441,180 @@ def field_plan(cls):
 PLANS = {n: field_plan(c) for n, c in ZOO.items()}
 for _n, _p in PLANS.items():
     for _f, _k in _p:
-        if _k.startswith("dom:") and _k[4:] not in ZOO:
-            raise AssertionError("zoo is not closed: %s.%s -> %s" % (_n, _f, _k))
+        if "dom:" in _k:
+            _t = _k.split(":", 1)[1]
+            if _t not in ZOO:
+                raise AssertionError("zoo is not closed: %s.%s -> %s" % (_n, _f, _k))
+if ZOO["ZFSub"].__mro__[1] is not fut.ZFReg or ("ZFSub", "inner") not in STRHINT or ("ZFCan", "inner") not in STRHINT:
+    raise AssertionError("the string-annotated part of the zoo is not what it is meant to be")
+GENERIC = ("any", "list", "dict")
 
 
 # ---------------------------------------------------------------- building objects from case data
 
-def build(spec):
-    """spec = {"cls": name, "vals": {field: value-or-nested-spec}}"""
-    cls = ZOO[spec["cls"]]
+def plain(v):
+    """the plain-dict form of a value: every data object replaced by the dict of its fields (the harness's own walk)"""
+    if dataclasses.is_dataclass(v) and not isinstance(v, type):
+        return {f.name: plain(getattr(v, f.name)) for f in dataclasses.fields(v)}
+    if isinstance(v, list):
+        return [plain(x) for x in v]
+    if isinstance(v, dict):
+        return {k: plain(x) for k, x in v.items()}
+    return v
+
+
+def build(spec, lose=frozenset(), seen=None, lost=None):
+    """spec = {"cls": name, "vals": {field: value-or-nested-spec}}.  A nested data object whose shape categories meet
+    `lose` is built as its plain dict (`lost` collects the categories that did it).  `seen` collects the category sets
+    of the nested data objects with a shape."""
+    name = spec["cls"]
+    cls = ZOO[name]
     kw = {}
-    for fname, kind in PLANS[spec["cls"]]:
+    later = {}
+
+    def node(sub, cats):
+        kc = CLASSCATS.get(sub["cls"])
+        if kc:
+            cats = cats | {kc}
+        if cats and seen is not None:
+            seen.add(frozenset(cats))
+        if cats & lose:
+            if lost is not None:
+                lost.update(cats & lose)
+            return plain(build(sub))
+        return build(sub, lose, seen, lost)
+
+    def value(v):
+        if isinstance(v, dict):
+            if len(v) == 1 and MARK in v:
+                return node(v[MARK], {"untyped"})
+            return {k: value(x) for k, x in v.items()}
+        if isinstance(v, list):
+            return [value(x) for x in v]
+        return v
+
+    for fname, kind in PLANS[name]:
         if fname not in spec["vals"]:
             continue
         v = spec["vals"][fname]
         if kind.startswith("dom:"):
-            v = build(v)
-        kw[fname] = v
-    return cls(**kw)
+            v = node(v, {"string"} if (name, fname) in STRHINT else set())
+        elif kind.startswith("optdom:"):
+            v = None if v is None else node(v, {"optional"})
+        elif kind.startswith("listdom:"):
+            v = [node(x, {"container"}) for x in v]
+        elif kind.startswith("dictdom:"):
+            v = {k: node(x, {"container"}) for k, x in v.items()}
+        elif kind in GENERIC:
+            v = value(v)
+        if fname in NOINIT.get(name, ()):
+            later[fname] = v
+        else:
+            kw[fname] = v
+    obj = cls(**kw)
+    for fname, v in later.items():
+        setattr(obj, fname, v)
+    return obj
 
 
-def nested_ok(obj, path="obj"):
-    """every field typed by a data class holds an instance of that class (recursively)"""
-    for f in dataclasses.fields(obj):
-        t = f.type
-        if isinstance(t, type) and dataclasses.is_dataclass(t):
-            v = getattr(obj, f.name)
-            if type(v) is not t:
-                return "%s.%s is %s, expected %s" % (path, f.name, type(v).__name__, t.__name__)
-            sub = nested_ok(v, path + "." + f.name)
-            if sub:
-                return sub
-    return None
+def _spec_of(obj):
+    """the spec of a data object that holds nested data objects only in fields annotated with their class (a declared default)"""
+    name = type(obj).__name__
+    if ZOO.get(name) is not type(obj):
+        raise AssertionError("default of a class outside the zoo: %r" % (obj,))
+    vals = {}
+    for fname, kind in PLANS[name]:
+        v = getattr(obj, fname)
+        if kind.startswith("dom:"):
+            v = _spec_of(v)
+        elif "dom:" in kind and v:
+            raise AssertionError("a declared default holds data objects in an Optional/list/dict field: %r" % (obj,))
+        vals[fname] = v
+    return {"cls": name, "vals": vals}
+
+
+def explicit(spec, obj):
+    """spec with the nested data objects that `obj` = build(spec) got from declared defaults written out"""
+    vals = {}
+    for fname, kind in PLANS[spec["cls"]]:
+        if fname in spec["vals"]:
+            v = spec["vals"][fname]
+            if kind.startswith("dom:"):
+                v = explicit(v, getattr(obj, fname))
+            elif kind.startswith("optdom:") and v is not None:
+                v = explicit(v, getattr(obj, fname))
+            elif kind.startswith("listdom:"):
+                v = [explicit(x, o) for x, o in zip(v, getattr(obj, fname))]
+            elif kind.startswith("dictdom:"):
+                v = {k: explicit(x, getattr(obj, fname)[k]) for k, x in v.items()}
+            elif kind in GENERIC:
+                v = _explicit_value(v, getattr(obj, fname))
+            vals[fname] = v
+        elif kind.startswith("dom:"):
+            vals[fname] = _spec_of(getattr(obj, fname))
+    return {"cls": spec["cls"], "vals": vals}
+
+
+def _explicit_value(v, o):
+    if isinstance(v, dict):
+        if len(v) == 1 and MARK in v:
+            return {MARK: explicit(v[MARK], o)}
+        return {k: _explicit_value(x, o[k]) for k, x in v.items()}
+    if isinstance(v, list):
+        return [_explicit_value(x, y) for x, y in zip(v, o)]
+    return v
+
+
+def same(a, b, path="obj"):
+    """None when a equals b and every data object in a has exactly the class of its counterpart in b,
+    else ('class' | 'value', where)"""
+    if dataclasses.is_dataclass(b) and not isinstance(b, type):
+        if type(a) is not type(b):
+            return "class", "%s is %s, expected %s" % (path, type(a).__name__, type(b).__name__)
+        for f in dataclasses.fields(b):
+            bad = same(getattr(a, f.name), getattr(b, f.name), path + "." + f.name)
+            if bad:
+                return bad
+        return None
+    if dataclasses.is_dataclass(a) and not isinstance(a, type):
+        return "class", "%s is %s, expected %s" % (path, type(a).__name__, type(b).__name__)
+    if isinstance(b, list) and isinstance(a, list) and len(a) == len(b):
+        for i, (x, y) in enumerate(zip(a, b)):
+            bad = same(x, y, "%s[%d]" % (path, i))
+            if bad:
+                return bad
+        return None
+    if isinstance(b, dict) and isinstance(a, dict) and set(a) == set(b):
+        for k in b:
+            bad = same(a[k], b[k], "%s[%r]" % (path, k))
+            if bad:
+                return bad
+        return None
+    if a == b:
+        return None
+    return "value", "%s is %r, expected %r" % (path, a, b)
 
 
 def _has_nested_container(v, depth=0):
     if isinstance(v, (list, dict)):
+        if isinstance(v, dict) and len(v) == 1 and MARK in v:
+            return False
         if depth >= 1:
             return True
         it = v.values() if isinstance(v, dict) else v
         return any(_has_nested_container(x, depth + 1) for x in it)
     return False
+
+
+def _marked(v):
+    """the nested specs standing inside a generic value"""
+    if isinstance(v, dict):
+        if len(v) == 1 and MARK in v:
+            return [v[MARK]]
+        return [m for x in v.values() for m in _marked(x)]
+    if isinstance(v, list):
+        return [m for x in v for m in _marked(x)]
+    return []
 
 
 def _spec_flags(spec):
@@ -289,11 +625,21 @@ def _spec_flags(spec):
             continue
         v = spec["vals"][fname]
         if kind.startswith("dom:"):
+            subs = [v]
+        elif kind.startswith("optdom:"):
+            subs = [] if v is None else [v]
+        elif kind.startswith("listdom:"):
+            subs = list(v)
+        elif kind.startswith("dictdom:"):
+            subs = list(v.values())
+        else:
+            subs = _marked(v)
+            if _has_nested_container(v):
+                cont = True
+        for sub in subs:
             dom = True
-            d2, c2 = _spec_flags(v)
+            _d2, c2 = _spec_flags(sub)
             cont = cont or c2
-        elif _has_nested_container(v):
-            cont = True
     return dom, cont
 
 
@@ -301,48 +647,123 @@ CODECS = [("json", "_asjson", "_fromjson"), ("cbor", "_ascbor", "_fromcbor"), ("
           ("dict", "_asdict", "_fromdict")]
 
 
-def run_case(case):
-    r = Result()
-    spec = case["obj"]
-    cls = ZOO[spec["cls"]]
-    obj = build(spec)
-    if spec["cls"] in PARENT and case.get("parent_first", True):
-        pcls = ZOO[PARENT[spec["cls"]]]
-        pcls._fromjson(pcls()._asjson())
-        r.labels.append("subclass-after-parent")
+def _trip(obj, cls, case):
+    """[(codec, outcome)]: outcome ('ser', ex) | ('utf8', ex) | ('de', ex, raw) | ('back', result)"""
+    out = []
     for name, ser, de in CODECS:
         try:
             raw = getattr(obj, ser)()
         except Exception as ex:      # noqa: BLE001
-            r.fail("C28/%s-serialise-raised:%s" % (name, type(ex).__name__), repr(ex))
+            out.append((name, ("ser", ex)))
             continue
         if name == "json" and case.get("json_as_str"):
             try:
                 raw = raw.decode()
             except UnicodeDecodeError as ex:
-                r.fail("C28/json-not-utf8", repr(ex))
+                out.append((name, ("utf8", ex)))
                 continue
         try:
             back = getattr(cls, de)(raw)
         except Exception as ex:      # noqa: BLE001
-            r.fail("C28/%s-deserialise-raised:%s" % (name, type(ex).__name__), "%r raw=%s" % (ex, repr(raw)[:200]))
+            out.append((name, ("de", ex, raw)))
             continue
-        if type(back) is not cls:
-            r.fail("C28/%s-class" % name, "got %s expected %s" % (type(back).__name__, cls.__name__))
+        out.append((name, ("back", back)))
+    return out
+
+
+def _judge(trips, cls, want):
+    """[(signature, detail)] of the outcomes against the expected object `want`"""
+    fails = []
+    for name, oc in trips:
+        if oc[0] == "ser":
+            fails.append(("C28/%s-serialise-raised:%s" % (name, type(oc[1]).__name__), repr(oc[1])))
+        elif oc[0] == "utf8":
+            fails.append(("C28/json-not-utf8", repr(oc[1])))
+        elif oc[0] == "de":
+            fails.append(("C28/%s-deserialise-raised:%s" % (name, type(oc[1]).__name__), "%r raw=%s" % (oc[1], repr(oc[2])[:200])))
+        elif type(oc[1]) is not cls:
+            fails.append(("C28/%s-class" % name, "got %s expected %s" % (type(oc[1]).__name__, cls.__name__)))
+        else:
+            bad = same(oc[1], want)
+            if bad and bad[0] == "class":
+                fails.append(("C28/%s-nested-class" % name, bad[1]))
+            elif bad:
+                fails.append(("C28/%s-not-equal" % name, "%s; sent %r got %r" % (bad[1], want, oc[1])))
+    return fails
+
+
+def _known_shape(case, spec, cls, trips, present):
+    """The shape categories a failing case can be charged to, or None.  A set S of the categories present qualifies when
+    every codec gave exactly the sent object with the nested data objects of S flattened to their plain dicts (for a top
+    level class with an init=False field: every deserialiser raised ValueError) and that flattened object (there: the
+    same values in a twin class without init=False) round-trips unchanged."""
+    root_noinit = spec["cls"] in TWIN
+    cats = [c for c in SHAPE_ORDER if c in present]
+    subsets = [tuple(cats)] + [s for k in range(1, len(cats)) for s in itertools.combinations(cats, k)]
+    for sub in subsets:
+        lose = frozenset(sub)
+        if root_noinit and "noinit" in lose:
+            if lose != {"noinit"} or not all(oc[0] == "de" and type(oc[1]) is ValueError for _n, oc in trips):
+                continue
+            full = build(spec)
+            twin = TWIN[spec["cls"]]
+            ctl = twin(**{f.name: getattr(full, f.name) for f in dataclasses.fields(full)})
+            if _judge(_trip(ctl, twin, case), twin, ctl):
+                continue
+            return sub
+        lost = set()
+        want = build(spec, lose, None, lost)
+        if _judge(trips, cls, want):
             continue
-        bad = nested_ok(back)
-        if bad:
-            r.fail("C28/%s-nested-class" % name, bad)
+        if _judge(_trip(want, cls, case), cls, want):
             continue
-        if back != obj:
-            r.fail("C28/%s-not-equal" % name, "sent %r got %r" % (obj, back))
+        return [c for c in SHAPE_ORDER if c in lost]      # not the shapes that sit inside a flattened object
+    return None
+
+
+def run_case(case):
+    r = Result()
+    spec = case["obj"]
+    cls = ZOO[spec["cls"]]
+    seen = set()
+    obj = build(spec, frozenset(), seen)
+    present = set().union(*seen) if seen else set()
+    if spec["cls"] in TWIN:
+        present.add("noinit")
+    if spec["cls"] in PARENT and case.get("parent_first", True):
+        pcls = ZOO[PARENT[spec["cls"]]]
+        pcls._fromjson(pcls()._asjson())
+        r.labels.append("subclass-after-parent")
+    trips = _trip(obj, cls, case)
+    fails = _judge(trips, cls, obj)
+    full = None
+    if fails:
+        # nested data objects that came from declared defaults have a shape too
+        full = explicit(spec, obj)
+        seen2 = set()
+        if same(build(full, frozenset(), seen2), obj) is None:
+            present = present.union(*seen2)
+        else:
+            full = None
+    if full is not None and present:
+        sub = _known_shape(case, full, cls, trips, present)
+        if sub is not None:
+            first = fails[0]
+            fails = [(SHAPES[c], "the only difference in every codec: nested data objects of this shape came back as their plain "
+                      "dicts%s; first raw failure %s: %s" % (" / deserialising raised ValueError" if c == "noinit" else "",
+                                                           first[0], first[1])) for c in sub]
+            r.labels.append("known-shape-failure")
+    for sig, detail in fails:
+        r.fail(sig, detail)
     dom, cont = _spec_flags(spec)
-    r.nontrivial = dom or cont
+    r.nontrivial = dom or cont or bool(present)
     r.labels.append("cls:" + spec["cls"])
     if dom:
         r.labels.append("nested-dom")
     if cont:
         r.labels.append("nested-container")
+    for c in sorted(present):
+        r.labels.append("shape:" + c)
     return r
 
 
@@ -354,7 +775,7 @@ INT = st.one_of(st.integers(-2 ** 63, 2 ** 64 - 1), st.integers(-300, 300),
 FLOAT = st.one_of(st.floats(allow_nan=False, allow_infinity=False),
                   st.sampled_from([0.0, -0.0, 1.0, 0.1, 1e300, 5e-324, 1.5, -2.5, 1e16, 3.0, 65504.0, 1e-7, 2.0 ** 24 + 1]))
 TEXT = st.one_of(st.text(st.characters(exclude_categories=("Cs",)), max_size=12),
-                 st.sampled_from(["", "\x00", "é", "\U0001f600", "\"", "\\", "\n", " ", "a" * 40, "﻿", "\x7f", "null"]))
+                 st.sampled_from(["", "\x00", "é", "\U0001f600", "\"", "\\", "\n", " ", "a" * 40, "﻿", "\x7f", "null"]))
 SCALAR = st.one_of(st.none(), st.booleans(), INT, FLOAT, TEXT)
 KEY = st.one_of(st.text(st.characters(exclude_categories=("Cs",)), max_size=5), st.sampled_from(["", "a", "s", "v", "inner", "0"]))
 VALUE = st.recursive(SCALAR, lambda ch: st.one_of(st.lists(ch, max_size=4), st.dictionaries(KEY, ch, max_size=4)),
@@ -362,12 +783,39 @@ VALUE = st.recursive(SCALAR, lambda ch: st.one_of(st.lists(ch, max_size=4), st.d
 LIST = st.lists(VALUE, max_size=4)
 DICT = st.dictionaries(KEY, VALUE, max_size=4)
 
+# classes whose instances are put inside generic values (no hooks, no init=False fields: see ASSUMPTIONS)
+MARKABLE = ["ZInner", "Bag", "IceBag", "ZIceInner", "ZMark", "ZFInner", "ZFlat", "ZMid", "ZIceReg", "ZFReg"]
 
-def spec_strategy(name):
+
+@functools.lru_cache(maxsize=None)
+def _generic(markers):
+    """(VALUE, LIST, DICT) whose leaves may also be nested data objects; at the second level (a data object inside a data
+    object inside a generic value) only the tree's own Bag / IceBag"""
+    if markers <= 0:
+        return VALUE, LIST, DICT
+    names = MARKABLE if markers >= 2 else ["Bag", "IceBag"]
+    marked = st.sampled_from(names).flatmap(lambda n: st.fixed_dictionaries({MARK: spec_strategy(n, markers - 1)}))
+    small = st.one_of(st.none(), st.booleans(), st.integers(-300, 300), st.sampled_from([0.5, -0.0, 1e300]), st.sampled_from(["", "a", "\U0001f600"]))
+    leaf = st.one_of(small, marked, marked)
+    value = st.one_of(leaf, marked, st.lists(leaf, max_size=3), st.dictionaries(KEY, leaf, max_size=3),
+                      st.lists(st.one_of(st.lists(leaf, max_size=2), st.dictionaries(KEY, leaf, max_size=2)), max_size=2))
+    return value, st.lists(value, max_size=3), st.dictionaries(KEY, value, max_size=3)
+
+
+@functools.lru_cache(maxsize=None)      # building a strategy is far more expensive than running a case
+def spec_strategy(name, markers=0):
     parts = {}
+    value, lst, dct = _generic(markers)
     for fname, kind in PLANS[name]:
         if kind.startswith("dom:"):
-            s = spec_strategy(kind[4:])
+            s = spec_strategy(kind[4:], markers)
+        elif kind.startswith("optdom:"):
+            sub = spec_strategy(kind[7:], markers)
+            s = st.one_of(st.none(), sub, sub)
+        elif kind.startswith("listdom:"):
+            s = st.lists(spec_strategy(kind[8:], markers), max_size=3)
+        elif kind.startswith("dictdom:"):
+            s = st.dictionaries(KEY, spec_strategy(kind[8:], markers), max_size=3)
         elif kind == "int":
             s = INT
         elif kind == "str":
@@ -377,16 +825,16 @@ def spec_strategy(name):
         elif kind == "bool":
             s = st.booleans()
         elif kind == "list":
-            s = LIST
+            s = lst
         elif kind == "dict":
-            s = DICT
+            s = dct
         elif kind == "optfloat":
             s = st.one_of(st.none(), FLOAT)
         elif kind == "optbool":
             s = st.one_of(st.none(), st.booleans())
         else:
-            s = VALUE
-        if not kind.startswith("dom:") and kind != "any":
+            s = value
+        if "dom:" not in kind and kind != "any":
             s = st.one_of(s, s, s, st.none())        # a typed field holding None is still a representable value
         parts[fname] = s
     # each field present or left to its default
@@ -395,7 +843,7 @@ def spec_strategy(name):
 
 
 def _strategy():
-    names = sorted(ZOO)
+    names = list(CLASSIC)
     # weight the classes with nested data objects
     weighted = names + ["ZOuter", "ZOuter", "ZMid", "ZIceTyme", "ZIceReg", "ZDefaults", "ZDefaults", "ZIceDefaults", "ZSubFlat", "ZSubFlat",
                         "ZSubInner", "ZSubIceReg", "ZHolder", "ZHolder"] + (["AckDom"] if "AckDom" in ZOO else [])
@@ -403,5 +851,23 @@ def _strategy():
         lambda n: st.fixed_dictionaries({"obj": spec_strategy(n), "json_as_str": st.booleans()}))
 
 
+def _hints_strategy():
+    """nested data objects in string-annotated, Optional, list[Dom] / dict[str, Dom] and generic fields"""
+    names = ["Bag", "IceBag", "ZOpt", "ZPoly", "ZFReg", "ZFIceReg", "ZFTyme", "ZFCan", "ZFSub", "ZFSub", "ZMid", "ZOuter", "ZFlat", "ZIceReg",
+             "ZFReg", "ZFTyme", "ZOpt", "ZPoly"] + (["Can"] if "Can" in ZOO else [])
+    return st.sampled_from(names).flatmap(
+        lambda n: st.fixed_dictionaries({"obj": spec_strategy(n, 2), "json_as_str": st.booleans()}))
+
+
+def _classes_strategy():
+    """data classes with an init=False field or a _dictify/_datify pair, top level and nested"""
+    names = ["ZNoInit", "ZIceNoInit", "ZNoInitHolder", "ZHooked", "ZHookHolder", "ZNoInitHolder", "ZHookHolder"]
+    return st.sampled_from(names).flatmap(
+        lambda n: st.fixed_dictionaries({"obj": spec_strategy(n), "json_as_str": st.booleans()}))
+
+
 def searches(tier):
-    return [("zoo", _strategy(), 3000 if tier == "quick" else 30000)]
+    quick = tier == "quick"
+    return [("zoo", _strategy(), 3000 if quick else 30000),
+            ("hints", _hints_strategy(), 1200 if quick else 12000),
+            ("classes", _classes_strategy(), 400 if quick else 4000)]
